@@ -181,6 +181,13 @@ func (r *ResSpec) Wrapped() *jsonapi.Wrapper {
 		sv.FieldByName(fmt.Sprintf("R%d", i)).Set(reflect.ValueOf(v))
 	}
 
+	// Wrap takes a pointer to a struct or a struct value (which it copies); which
+	// of the two a spec gets is a pure function of its ID, so that both forms occur
+	// everywhere wrapped resources are used and a replay builds the same one.
+	if core.HashString(r.ID)%3 == 0 {
+		return jsonapi.Wrap(sv.Interface())
+	}
+
 	return jsonapi.Wrap(pv.Interface())
 }
 
